@@ -14,6 +14,6 @@ open Unifex.Core Unifex.Proto.EventV2
     never gets done, no wake-up is lost, and both completions run on the waiter's scheduler. -/
 theorem v2_cancel_vs_set_safe_inst :
     ∀ s, Reach (sys cfgCancelVsSet) s → (safe cfgCancelVsSet s && affine s) = true :=
-  safe_of_checkC _ { coded with M := 1091, W := 224 } 400 _ (by decide +kernel)
+  safe_of_checkC _ { coded with M := 1091, W := 240 } 400 _ (by decide +kernel)
 
 end Unifex.Props.C16
